@@ -29,7 +29,8 @@ func pool(t reflect.Type) []interface{} {
 	case reflect.TypeOf(0):
 		return []interface{}{1, 2, 3, 1 << 53, 1<<53 + 1}
 	case reflect.TypeOf(""):
-		return []interface{}{"a", "b", "3"}
+		// among them strings that concatenate to one another ("a"+"b" = "ab", "ab"+"" = "ab") and a numeric-looking one
+		return []interface{}{"a", "b", "3", "ab", ""}
 	case reflect.TypeOf(uint8(0)):
 		return []interface{}{uint8(0), uint8(1), uint8(255)}
 	case reflect.TypeOf(0.5):
@@ -43,6 +44,8 @@ func pool(t reflect.Type) []interface{} {
 	}
 	if t.Kind() == reflect.Interface {
 		// the nil interface and typed nils are different values of an interface parameter
+		// (values of different dynamic types that goom deliberately treats as alike - "1" and 1, int64(1) and 1 - are
+		// not mixed: the statement fixes equality for same-typed values only)
 		return []interface{}{1, "a", P2{1, 2}, 2, nil, (*P2)(nil), []int(nil)}
 	}
 	panic("no pool for " + t.String())
